@@ -60,6 +60,7 @@ def install_common():
 def install_sqlite(clock=None):
     C.stub(SQ, "sqlite3", sqlstub)
     C.stub(SQ, "json", JSON)
+    C.stub(SQ, "int", S.sym_int)
     C.stub(SQ, "datetime", S.SymDatetimeClass(clock))
 
 
@@ -256,7 +257,196 @@ class SqliteBackend(Backend):
         return self._rows(ds, committed)[2]
 
 
-BACKENDS = {"memory": MemoryBackend, "sqlite": SqliteBackend}
+def _is_shadow_num(v):
+    return isinstance(v, (S.SRatio, S.SInt)) or type(v).__name__ == "SFloat"
+
+
+def class_stub(real, convert=None, also=()):
+    """a class that behaves as `real` in isinstance / issubclass checks and, when called, passes
+    shadows through (optionally converting them) and otherwise constructs a `real`"""
+
+    class _Meta(type):
+        def __instancecheck__(cls, x):
+            return isinstance(x, real)
+
+        def __subclasscheck__(cls, c):
+            return issubclass(c, real)
+
+    class Stub(metaclass=_Meta):
+        def __new__(cls, v=0, *a, **k):
+            if _is_shadow_num(v) or isinstance(v, also):
+                return convert(v) if convert else v
+            return real(v, *a, **k)
+
+    Stub.__name__ = real.__name__
+    return Stub
+
+
+class DecimalStub:
+    """stands for the module decimal inside peewee: Decimal(x) passes shadows through"""
+
+    def __init__(self):
+        import decimal as _d
+
+        self._d = _d
+        self.Decimal = class_stub(_d.Decimal)
+
+    def __getattr__(self, name):
+        return getattr(self._d, name)
+
+
+class _TextMeta(type):
+    def __instancecheck__(cls, x):
+        return isinstance(x, str)
+
+    def __subclasscheck__(cls, c):
+        return issubclass(c, str)
+
+
+class sym_text_type(str, metaclass=_TextMeta):
+    """stands for peewee.text_type (= str): isinstance works as for str, calling it passes shadows through"""
+
+    def __new__(cls, v=""):
+        if isinstance(v, (S.SRatio, S.SInt, sqlstub.JsonText)) or type(v).__name__ in ("SFloat", "SDatetime"):
+            return v
+        return str(v)
+
+
+def sym_float(v=0.0):
+    if isinstance(v, (S.SRatio, S.SInt)) or type(v).__name__ == "SFloat":
+        return v
+    return float(v)
+
+
+def install_peewee():
+    import peewee
+    import playhouse.sqlite_ext as PEXT
+    import aw_datastore.storages.peewee as PW
+
+    C.stub(peewee, "sqlite3", sqlstub)
+    C.stub(PEXT, "sqlite3", sqlstub)
+    C.stub(peewee, "decimal", DecimalStub())
+    C.stub(peewee, "text_type", sym_text_type)
+    C.stub(peewee, "int", class_stub(int, S.sym_int))
+    C.stub(PW, "json", JSON)
+    C.stub(PW, "float", sym_float)
+    C.stub(PW, "get_data_dir", lambda name=None: "/stub/data")
+
+
+def _seconds_to_us(v):
+    """microseconds (term | int) of a duration cell holding seconds"""
+    from fractions import Fraction
+    import decimal
+
+    if isinstance(v, S.SRatio):
+        if 1000000 % v.d:
+            raise Unsupported("duration cell with denominator %d" % v.d)
+        return v.n * (1000000 // v.d)
+    if isinstance(v, S.SInt):
+        return v.z * 1000000
+    if isinstance(v, (int, float, str, decimal.Decimal)):
+        f = Fraction(str(v)) * 1000000
+        if f.denominator != 1:
+            raise Unsupported("sub-microsecond duration cell %r" % (v,))
+        return int(f)
+    raise Unsupported("duration cell %r" % type(v))
+
+
+class PeeweeBackend(Backend):
+    name = "peewee"
+
+    def make(self, x, state, seq=None, meta=None, lazy=True):
+        import aw_datastore.storages.peewee as PW
+        from aw_datastore.storages import PeeweeStorage
+
+        if x.sym:
+            sqlstub.reset()
+            ds = Datastore(PeeweeStorage, testing=True, filepath="/stub/peewee-%d.db" % id(x))
+        else:
+            self.tmp = tempfile.mkdtemp(prefix="vstore_")
+            ds = Datastore(PeeweeStorage, testing=True, filepath=os.path.join(self.tmp, "p.db"))
+        st = ds.storage_strategy
+        for bid in state:
+            ds.create_bucket(bid, "type-" + bid, "client", "host-" + bid, created=T0, name="name-" + bid, data={"d": bid})
+        conn = st.db.connection()
+        if x.sym:
+            et = conn.tables["eventmodel"]
+            for bid, rows in state.items():
+                key = st.bucket_keys[bid]
+                for r in rows:
+                    et.rows.append({"id": x.wrap(r.id), "__rowid__": x.wrap(r.id), "bucket_id": key, "timestamp": x.dt_us(r.start), "duration": S.SRatio(r.dur, 1000000) if S.is_z3(r.dur) else (r.dur / 1000000),
+                                    "datastr": sqlstub.JsonText({"tag": x.wrap(r.tag)})})
+            conn._commit()
+        else:
+            import json
+
+            for bid, rows in state.items():
+                key = st.bucket_keys[bid]
+                for r in rows:
+                    ts = (EPOCH + timedelta(microseconds=r.start)).isoformat(" ")
+                    conn.execute('INSERT INTO "eventmodel" ("id", "bucket_id", "timestamp", "duration", "datastr") VALUES (?, ?, ?, ?, ?)', [r.id, key, ts, r.dur / 1000000, json.dumps({"tag": r.tag})])
+        self.ds = ds
+        return ds
+
+    def _rows(self, ds, committed=False):
+        st = ds.storage_strategy
+        conn = st.db.connection()
+        if isinstance(conn, sqlstub.Connection):
+            tabs = conn.crash_image() if committed else conn.tables
+            bt, et = tabs["bucketmodel"], tabs["eventmodel"]
+            names = {r["key"]: r["id"] for r in bt.rows}
+            out = {n: [] for n in names.values()}
+            orphans = []
+            for r in et.rows:
+                tag = r["datastr"].obj.get("tag") if isinstance(r["datastr"], sqlstub.JsonText) else __import__("json").loads(r["datastr"]).get("tag")
+                ts = r["timestamp"]
+                if isinstance(ts, str) and not isinstance(ts, S.SDatetime):
+                    import iso8601
+
+                    ts = iso8601.parse_date(ts)
+                row = Row(C.zv(r["id"]), S.dt_us(ts), _seconds_to_us(r["duration"]), C.zv(tag))
+                b = r["bucket_id"]
+                if isinstance(b, int) and b in names:
+                    out[names[b]].append(row)
+                else:
+                    orphans.append(row)
+            return out, orphans, {r["id"]: dict(r) for r in bt.rows}
+        import json
+        import sqlite3
+        import iso8601
+
+        c2 = sqlite3.connect(st.db.database)
+        names = {r[0]: r[1] for r in c2.execute('SELECT "key", "id" FROM "bucketmodel"')}
+        out = {n: [] for n in names.values()}
+        orphans = []
+        for rid, b, ts, dur, dstr in c2.execute('SELECT "id", "bucket_id", "timestamp", "duration", "datastr" FROM "eventmodel" ORDER BY "id"'):
+            row = Row(rid, S.dt_us(iso8601.parse_date(ts)), _seconds_to_us(dur), json.loads(dstr).get("tag"))
+            if b in names:
+                out[names[b]].append(row)
+            else:
+                orphans.append(row)
+        meta = {r[0]: r for r in c2.execute('SELECT "id", "name", "type", "client", "hostname", "created", "datastr" FROM "bucketmodel"')}
+        c2.close()
+        return out, orphans, meta
+
+    def table_rows(self, ds, committed=False):
+        out, orphans, _ = self._rows(ds, committed)
+        if orphans:
+            out["<orphans>"] = orphans
+        return out
+
+    def table_meta(self, ds, committed=False):
+        return self._rows(ds, committed)[2]
+
+    def close(self):
+        try:
+            self.ds.storage_strategy.db.close()
+        except Exception:  # noqa
+            pass
+        Backend.close(self)
+
+
+BACKENDS = {"memory": MemoryBackend, "sqlite": SqliteBackend, "peewee": PeeweeBackend}
 
 
 def backend(name):
